@@ -285,6 +285,25 @@ def r5(facts):
                            why='pl_list insert: every call site is guarded by a size() != capacity() test or a key space no larger than the capacity' if 'pl_list' in dn else 'exception reachable from the C API: ' + ' <- '.join(ir.path(par, f['id'])[-4:])))
     if len(sites) < 1:
         raise build.AnalysisBroken('C03.R5: no abort/throw site at all reachable (IR facts incomplete?)')
+    # throwing accessors of the standard containers (the throw itself lives in libstdc++ and is invisible to the IR rule):
+    # every at() needs a dominating presence / size test on the same container
+    for fn in facts.all_fns():
+        if fn.relfile() not in e2prog.CORE_FILES or fn.tree is None:
+            continue
+        for b, j, st in fn.cfg.stmts():
+            for x in calls_in(st['s']):
+                if short(callee_name(x)) == 'at' and x.get('obj') is not None and callee_name(x).startswith('std::'):
+                    obj = show(x['obj'])
+                    gf = guard_facts(fn, b, st, sd=single_defs(fn.d)) + guard_facts(fn, b, st)
+                    okk = False
+                    for f in gf:
+                        body = f[1] if f[0] == 'truth' else ([f[2], f[3]] if f[0] == 'cmp' else [])
+                        for y in walk(body):
+                            if short(callee_name(y)) in ('find', 'count', 'size') and y.get('obj') is not None and show(y['obj']) == obj:
+                                okk = True
+                    out.append(Obl('C03.R5', fn.name, '%s.at(%s)' % (obj, show(x['a'][0]) if x.get('a') else ''), st['loc'], 'discharged' if okk else 'finding',
+                                   why='dominated by a presence / size test on the same container' if okk else
+                                   'at() throws std::out_of_range for a missing key and no test of the key dominates the call: the exception leaves the C API'))
     return out
 
 
